@@ -269,7 +269,7 @@ def MAR_est_LWR(x, order, rxx=None):
     -------
     a, ecov : The system coefficients and the estimated covariance
     """
-    Rxx = utils.autocov_vector(x, nlags=order)
+    Rxx = utils.autocov_vector(x, nlags=order + 1)
     a, ecov = lwr_recursion(Rxx.transpose(2, 0, 1))
     return a, ecov
 
